@@ -286,6 +286,26 @@ def main():
             ref = E_.Isotropic(dim, E=float(Earr[0]), v=0.125, planeStress=ps).C
             if np.abs(mat.C[0] - ref).max() > 1e-9 * np.abs(ref).max():
                 res.fail("parameter change not seen", "material.C does not follow v", dict(dim=dim))
+            # tiny changes (finite-difference sensitivities, ramps in small increments): every change counts, however small
+            mt = E_.Isotropic(dim, E=4.0, v=0.25, planeStress=ps)
+            _ = mt.C, mt.S
+            for name_, new_ in (("E", 4.0 * (1 + 1e-7)), ("v", 0.25 + 2e-9)):
+                setattr(mt, name_, new_)
+                kw_ = dict(E=float(mt.E), v=float(mt.v))
+                reft = E_.Isotropic(dim, planeStress=ps, **kw_)
+                res.case((rep, "param-tiny", dim, name_))
+                if np.abs(mt.C - reft.C).max() > 1e-13 * np.abs(reft.C).max() or np.abs(mt.S - reft.S).max() > 1e-13 * np.abs(reft.S).max():
+                    res.fail("tiny parameter change not seen", f"after {name_} was changed by a relative 1e-7 / absolute 2e-9, C or S is still the law of the old value (difference to a new law {np.abs(mt.C - reft.C).max() / np.abs(reft.C).max():.2e})",
+                             dict(dim=dim, parameter=name_, new_value=new_))
+            El0 = 10.0
+            mti = E_.TransverselyIsotropic(dim, El0, 4.0, 2.0, 0.25, 0.3, planeStress=ps)
+            _ = mti.C
+            for kk in range(50):
+                mti.El = El0 * (1 + 2e-6) ** (kk + 1)
+            refi = E_.TransverselyIsotropic(dim, float(mti.El), 4.0, 2.0, 0.25, 0.3, planeStress=ps)
+            res.case((rep, "param-ramp", dim))
+            if np.abs(mti.C - refi.C).max() > 1e-12 * np.abs(refi.C).max():
+                res.fail("parameter ramped in small increments not seen", f"after 50 increments of 2e-6 (relative) of El the law differs from a new law with the final value by {np.abs(mti.C - refi.C).max() / np.abs(refi.C).max():.2e}", dict(dim=dim))
 
     answers = driver.ask(lines)
     if answers is None:
